@@ -237,6 +237,40 @@ invariant = ["%s", "it.index@ <= self.%s@.len()"]
 body_head = "assert(it.index@ < self.%s@.len()); %s"
 ''' % (sfile, impl_hdr, ty, ty, ty, field, field, field, ty, ty, inv, field, field, step))
 
+# ---- set<a> = #6.258([* a]) over the Vec<Rc<T>> + index collections (their invariants: units dedup_*) ---------------------------------
+SETS = [
+    ("Credentials", "protocol_types/credentials.rs", "serialization/credentials.rs", "credentials", "HashSet<Rc<Credential>>"),
+    ("TransactionInputs", "protocol_types/tx_inputs.rs", "serialization/tx_inputs.rs", "inputs", "BTreeSet<Rc<TransactionInput>>"),
+    ("Certificates", "protocol_types/certificates/certificates_collection.rs", "serialization/certificates/certificates_collection.rs", "certs", "HashSet<Rc<Certificate>>"),
+]
+for (ty, tfile, sfile, field, idx) in SETS:
+    toml.append('[[type]]\nsource = "rust/src/%s"\nname = "%s"\nsubst = [ { rule = "R-abstract-field", from = "%s", to = "DedupIndex" } ]\n' % (tfile, ty, idx))
+    toml.append('[[fn]]\nsource = "rust/src/%s"\nimpl = "impl %s"\nname = "len"\nid = "%s::len"\nensures = ["r == self.%s@.len()"]\n' % (tfile, ty, ty, field))
+    spec.append("pub open spec fn %s_enc(x: %s) -> Seq<Tok> { seq![Tok::Tag(258), Tok::Arr(x.%s@.len() as u64)] + flat(x.%s@) }\n" % (ty, ty, field, field))
+    s_ = src(sfile)
+    impl_hdr = "impl cbor_event::se::Serialize for %s" % ty
+    if not re.search(re.escape(impl_hdr) + r"\b", s_):
+        impl_hdr = "impl Serialize for %s" % ty
+    toml.append('''[[fn]]
+source = "rust/src/%s"
+impl = "%s"
+emit_impl = "impl Ser for %s"
+name = "serialize"
+id = "%s::serialize"
+rewrites = ["serret"]
+%s
+impl_pre = \'\'\'
+    open spec fn enc(&self) -> Seq<Tok> { %s_enc(*self) }
+\'\'\'
+head_raw = "let ghost t0 = serializer.toks();"
+tail = "if r_tail_ is Ok { assert(self.%s@.take(self.%s@.len() as int) =~= self.%s@); assert(serializer.toks() =~= old(serializer).toks() + %s_enc(*self)); assert(self.enc() =~= %s_enc(*self)); }"
+[[fn.loop]]
+index = 0
+ghost = "it"
+invariant = ["serializer.toks() =~= t0.push(Tok::Tag(258)).push(Tok::Arr(self.%s@.len() as u64)) + flat(self.%s@.take(it.index@ as int))", "it.index@ <= self.%s@.len()"]
+body_head = "assert(it.index@ < self.%s@.len()); lemma_flat_step(self.%s@, it.index@ as int);"
+''' % (sfile, impl_hdr, ty, ty, ('subst = [ { rule = "R-path", from = "write_array(Len::Len(", to = "write_array(cbor_event::Len::Len(" } ]' if 'write_array(Len::Len(' in s_ else ''), ty, field, field, field, ty, ty, field, field, field, field, field))
+
 # ---- leaves: one token ------------------------------------------------------------------------------------------------------------
 LEAVES = [
     ("Ipv4", "lib.rs", "serialization/general.rs", "seq![Tok::Bytes(x.0@)]"),                 # ipv4 = bytes .size 4
@@ -312,9 +346,9 @@ tail = "if r_tail_ is Ok { assert(self.enc() =~= %s_enc(self.0)); }"
 
 toml.append(open(os.path.join(D, "contracts/ser_records/custom.toml")).read())
 spec.append(open(os.path.join(D, "contracts/ser_records/custom_spec.rs")).read())
-own = set(t[0] for t in TABLE) | set(c[0] for c in COLLS) | set(l[0] for l in LEAVES) | set(d[0] for d in DISPATCH) | set(d[4] for d in DISPATCH if d[4]) | set(re.findall(r'(?m)^name = "(\w+)"', open(os.path.join(D, "contracts/ser_records/custom.toml")).read()))
+own = set(t[0] for t in TABLE) | set(c[0] for c in COLLS) | set(l[0] for l in LEAVES) | set(x[0] for x in SETS) | set(d[0] for d in DISPATCH) | set(d[4] for d in DISPATCH if d[4]) | set(re.findall(r'(?m)^name = "(\w+)"', open(os.path.join(D, "contracts/ser_records/custom.toml")).read()))
 opaque -= own
-opaque -= {"Coin", "Epoch", "Port", "BigNum", "TransactionIndex", "GovernanceActionIndex", "Ed25519KeyHash", "ScriptHash", "SubCoin", "PlutusData", "SlotBigNum", "Credentials", "DeltaCoin"}
+opaque -= {"Coin", "Epoch", "Port", "BigNum", "TransactionIndex", "GovernanceActionIndex", "Ed25519KeyHash", "ScriptHash", "SubCoin", "PlutusData", "SlotBigNum", "DeltaCoin", "CborSetType", "DedupIndex", "Rc"}
 open(os.path.join(D, "contracts/ser_records/unit.toml"), "w").write("\n".join(toml))
 open(os.path.join(D, "contracts/ser_records/spec.rs"), "w").write("".join(spec))
 open(os.path.join(D, "contracts/ser_records/opaque.rs"), "w").write(
